@@ -144,13 +144,16 @@ def run(ctx):
                                     first=k, out=str(tdir / f"chains_{k}.json"))))
             for k in range(0, len(chains), per)]
     nrel = 150 if ctx.quick else 3000
-    jobs += [("call", dict(module="harness.polyalg", func="relation_trace", args=dict(seed=ctx.seed * 100003 + k, transforms=3)))
-             for k in range(nrel)]
+    seeds = [ctx.seed * 100003 + k for k in range(nrel)]
+    jobs += [("call", dict(module="harness.polyalg", func="relation_traces", args=dict(seeds=seeds[k:k + 50], transforms=3)))
+             for k in range(0, nrel, 50)]
+    # interleave so that the pool's chunks mix heavy (chain files) and light (relation) jobs
+    jobs = [j for pair in zip(jobs[::2], jobs[1::2] + [None]) for j in pair if j is not None] if len(jobs) > 3 else jobs
     ph['prepare'] = round(time.time() - T0, 1)
     res = rf.replay_all(ctx, jobs)
     ph['replay'] = round(time.time() - T0, 1)
-    files = [r for r in res if r["kind"] == "chainfile"]
-    rel_tr = [r for r in res if r["kind"] == "rel"]
+    files = [r for r in res if isinstance(r, dict) and r["kind"] == "chainfile"]
+    rel_tr = [t for r in res if isinstance(r, list) for t in r]
     meta = [None] * len(chains)
     for f in files:
         for n, m in enumerate(f["meta"]):
